@@ -22,8 +22,10 @@ CONSTANTS
     UrlIdx = "layer"
     ReaderChecksRef = TRUE
     ReaderChecksDigest = TRUE
+    StopAtFirstMisfit = TRUE
+    ReaderPure = TRUE
     ReaderResetsUrls = TRUE
     ReaderSkipsTarget = TRUE
 SPECIFICATION Spec
-INVARIANTS AllLabelsValid RoundTrip NeighbourUrlsPositional PrefetchSizeRoundTrips UrlsOwnOrNone MalformedMandatoryRejected TamperLogExplains ExtraKeepsPreset
+INVARIANTS AllLabelsValid RoundTrip NeighbourUrlsPositional PrefetchSizeRoundTrips UrlsOwnOrNone ReaderLeavesLabels RoundTripSecondRead MalformedMandatoryRejected TamperLogExplains ExtraKeepsPreset
 CHECK_DEADLOCK FALSE
